@@ -485,7 +485,7 @@ class World:
         raise KeyError(sp)
 
     def run_process(self, fn, nonce, cwd, fault=None, record_io=False, set_policy="mixed",
-                    walk_policy="shuffled", env=None, new_process=True):
+                    walk_policy="shuffled", env=None, new_process=True, read_fault=None):
         """Run `fn()` as one simulated codelimit process (new_process=False: one
         more call inside the same long-lived process, library mode)."""
         from codelimit.common.Configuration import Configuration
@@ -505,6 +505,8 @@ class World:
         CTX.walk_policy = walk_policy
         CTX.io_root = self.base
         CTX.io_plan = dict(fault) if fault else None
+        CTX.read_plan = dict(read_fault) if read_fault else None
+        CTX.read_n = 0
         CTX.io_tick = 0
         CTX.io_dead = False
         CTX.io_full = False
@@ -586,6 +588,8 @@ class World:
         if CTX.io_fired:
             obs["fault_fired"] = dict(CTX.io_fired)
         obs["io_ticks"] = CTX.io_tick
+        obs["reads"] = CTX.read_n
+        CTX.read_plan = None
         if record_io:
             obs["io_events"] = list(CTX.io_events)
         obs["analysed"] = list(CTX.analysed)
@@ -595,7 +599,7 @@ class World:
         return obs
 
     def scan(self, nonce, fault=None, record_io=False, spelling=None, verbose=False,
-             set_policy="mixed", walk_policy="shuffled", env=None, excludes=None):
+             set_policy="mixed", walk_policy="shuffled", env=None, excludes=None, read_fault=None):
         import codelimit.__main__ as cli
         from pathlib import Path
         cwd, arg = self._spelling(spelling)
@@ -603,7 +607,7 @@ class World:
 
         def fn():
             cli.scan(path=Path(arg), exclude=ex or None, verbose=verbose)
-        obs = self.run_process(fn, nonce, cwd, fault, record_io, set_policy, walk_policy, env)
+        obs = self.run_process(fn, nonce, cwd, fault, record_io, set_policy, walk_policy, env, read_fault=read_fault)
         obs["cache_bytes_len"] = len(self.cache_bytes() or b"") if os.path.exists(self.cache_file) else None
         return obs
 
